@@ -13,7 +13,7 @@ or quoted or plain scalars, tabs as separation, non-string keys, floats) is reje
 naming the construct, never silently misread.
 -/
 import SuccinctlyVerif.Spec.YamlTree
-namespace SV.Yaml
+namespace SV.YamlRef
 
 inductive Err where
   | utf8
@@ -659,4 +659,4 @@ def loadRef (b : ByteArray) : R (List Tree) :=
   | none => .error .utf8
   | some cs => loadChars cs.toList
 
-end SV.Yaml
+end SV.YamlRef
